@@ -227,7 +227,7 @@ def main():
         ctext = clause_at(tlines, e['line'])
         hit = None
         for k in known:
-            if k['unit'] == uname and k['clause'] in ctext:
+            if k['unit'] == re.sub(r'\s+', '_', uname) and k['clause'] in ctext:
                 hit = k
                 break
         rec = dict(unit=uname, obligation=e['msg'], clause=ctext[:600], out_line=e['line'],
@@ -270,6 +270,11 @@ def main():
         not_covered=meta.get('not_covered', []),
         repo=core.REPO,
     )
+    if known_hit:
+        # items (functions) whose only failing obligations are listed known findings: reported separately, not as proved
+        kf_units = set(r['unit'] for k, r in known_hit) - set(r['unit'] for r in new_viol)
+        ev['coverage']['undischarged_known_finding_items'] = sorted(kf_units)
+        ev['coverage']['obligations'] = obligations - len(kf_units)
     ev['assumptions'] = assumptions
     ev['violations'] = len(new_viol)
     ev['wall_s'] = round(time.time() - t0, 2)
